@@ -70,8 +70,85 @@ def evaluate(res):
     return corr, orc
 
 
+def tsm_history(res, tag="C13"):
+    """the move / rebuild / execute / export history of a target/source tree over the same particles (segments tsm0, tsm1)"""
+    c = res.case
+    D, real, data, nextra, nrhs, periodic = c["cfg"]
+    m = c["meta"]
+    n = len(m["particles"])
+    corr, orc = [], []
+    if nrhs == 0 or "tsm_moves" not in m:
+        return corr, orc
+    cs, ls = ftree.segments(res.cpp), ftree.segments(res.lean)
+    if "tsm0" not in cs:
+        return corr, orc
+    cur = {side: [[ftree.to_data_bits(ftree.bits(v, real), real, data) for v in p] for p in m.get("tsm_input", m["particles"])] for side in "st"}
+    prev_rhs = None
+    for key in ("tsm0", "tsm1"):
+        seg = cs.get(key)
+        if seg is None:
+            break
+        if key == "tsm1":
+            for side in "st":
+                for i, np_ in m["tsm_moves"][side]:
+                    cur[side][i][:D] = [ftree.bits(v, data) for v in np_]
+        pre = ("sL", "sP", "tL", "tP", "tR", "XD", "XR", "EX")
+        a = [ln for ln in seg if ln[:2] in pre]
+        b = [ln for ln in ls.get(key, []) if ln[:2] in pre]
+        if a != b:
+            corr.append(("tsm-history", "%s: target/source dumps differ (library, model): %r" % (key, [(x, y) for x, y in zip(a, b) if x != y][:2] or (len(a), len(b)))))
+        # dump (first block of the segment, before EX): what each side stores
+        before_ex = seg[:seg.index("EX")] if "EX" in seg else seg
+        for side, what in (("s", "source"), ("t", "target")):
+            sl = [ln[1:] for ln in before_ex if ln.startswith(side + "LF ") or ln.startswith(side + "P ")]
+            leaves, parts = ftree.parse_leaves(sl, D)
+            seen = sorted(p for _, _, _, ps in leaves for p in ps)
+            if seen != list(range(n)):
+                orc.append(("%s:tsm-identity" % tag, "%s, %s side: stored particle indices are not 0..%d once each: %r" % (key, what, n - 1, seen[:10])))
+            for gi, idx, coord, ps in leaves:
+                for p in ps:
+                    if p not in parts:
+                        continue
+                    if parts[p][1] != cur[side][p]:
+                        orc.append(("%s:tsm-data" % tag, "%s, %s side: particle %d holds data %r, expected %r" % (key, what, p, ["%x" % x for x in parts[p][1]], ["%x" % x for x in cur[side][p]])))
+                    elif parts[p][0] != idx:
+                        orc.append(("%s:tsm-leaf" % tag, "%s, %s side: particle %d listed in leaf %d but stored under %d" % (key, what, p, idx, parts[p][0])))
+                    elif not ftree.contains(c, coord, [ftree.unbits(x, data) for x in cur[side][p][:D]]):
+                        orc.append(("%s:tsm-leaf" % tag, "%s, %s side: particle %d sits in leaf %d (box %r) which does not contain its position" % (key, what, p, idx, coord)))
+        rhs_before = {int(ln.split()[1]): [int(x) for x in ln.split()[2:]] for ln in before_ex if ln.startswith("tR ")}
+        if prev_rhs is not None and rhs_before != prev_rhs:
+            bad = [p for p in rhs_before if rhs_before[p] != prev_rhs.get(p)][:3]
+            orc.append(("%s:tsm-results" % tag, "%s: the targets' accumulated results changed across rebuild for particles %r" % (key, bad)))
+        # exports after the execution
+        xds = {int(ln.split()[1]): [int(x, 16) for x in ln.split()[3:]] for ln in seg if ln.startswith("XDs ")}
+        xdt = {int(ln.split()[1]): [int(x, 16) for x in ln.split()[3:]] for ln in seg if ln.startswith("XDt ")}
+        xrt = {int(ln.split()[1]): [int(x) for x in ln.split()[2:]] for ln in seg if ln.startswith("XRt ")}
+        for side, xd, what in (("s", xds, "source"), ("t", xdt, "target")):
+            if xd and (sorted(xd) != list(range(n)) or any(xd[i] != cur[side][i] for i in range(n))):
+                bad = [i for i in range(n) if xd.get(i) != cur[side][i]][:3]
+                orc.append(("%s:tsm-export-data" % tag, "%s: bulk export of the %s particles: entries %r do not hold the data of the particles inserted at those positions" % (key, what, bad)))
+        if xrt:
+            want = {p: list(rhs_before.get(p, [])) for p in range(n)}
+            if True:
+                for p in want:
+                    if want[p]:
+                        want[p][0] += (3 ** D if periodic else 1) * n        # one execution: every target receives every source (image in [-1,1]^D) once
+                if xrt != want:
+                    bad = [p for p in range(n) if xrt.get(p) != want.get(p)][:3]
+                    orc.append(("%s:tsm-export-results" % tag, "%s: bulk export of the targets' results: entries %r are %r, expected %r (previous results + %d source contributions)" %
+                                (key, bad, [xrt.get(p) for p in bad], [want.get(p) for p in bad], (3 ** D if periodic else 1) * n)))
+            prev_rhs = xrt
+    return corr, orc
+
+
+def evaluate_all(res):
+    corr, orc = evaluate(res)
+    c2, o2 = tsm_history(res, "C13")
+    return corr + c2, orc + o2
+
+
 def run(rep, tier, seed, replay, proof_ok, proof_msg):
-    ftree.standard(rep, tier, seed, replay, proof_ok, proof_msg, "C13", 300, 30000, True, evaluate, export=False)
+    ftree.standard(rep, tier, seed, replay, proof_ok, proof_msg, "C13", 300, 30000, True, evaluate_all, export=False)
     rep.assumptions += ["in-place edits keep the particle inside the box as the library's own assertion requires",
                         "equivalence with a freshly built tree is compared for the first cycle of configurations whose data type equals the coordinate type",
-                        "target/source trees: see C09"]
+                        "target/source trees: the same history (moves on each side, rebuild, execution, bulk export) on a TbfTreeTsm over the same particle set on both sides"]
